@@ -535,15 +535,17 @@ func (r *verifC19rig) iterate(x int, sp *verifC19spec, withCallback bool) {
 		seenK = append(seenK, verifC19copy(it.Address))
 		seenV = append(seenV, verifC19copy(it.Data))
 		if withCallback {
+			// the two results are independent: the callback may ask to stop
+			// and return an error at the same time (the error is still propagated)
 			cbErr, cbStop := zzverif.Bool("cb-error"), zzverif.Bool("cb-stop")
-			if cbErr {
-				failed = true
-				return false, verifC19errCallback
-			}
 			if cbStop {
 				stopped = true
-				return true, nil
 			}
+			if cbErr {
+				failed = true
+				return cbStop, verifC19errCallback
+			}
+			return cbStop, nil
 		}
 		return false, nil
 	}, opts)
@@ -823,4 +825,69 @@ func verifC19batchRun(concrete bool, nops int) {
 	}
 	// everything visible after Commit
 	r.observe()
+}
+
+// VerifC19_PresetItems: Get and Fill with items on which, besides the key
+// field, value and other non-key fields are ALREADY set (an item obtained
+// earlier, from another index or before an overwrite): the result carries the
+// value the index stores under the key (the reference map's value), whatever
+// the passed item held in the fields that the index value encodes, and the key
+// field is kept. Fields that the index value does not encode (timestamps,
+// counters: the identity-style IndexFuncs store Data only) are set symbolically
+// on the passed items but not asserted (the statement says nothing about them).
+func VerifC19_PresetItems() {
+	nk := 2
+	zzverif.Unwind(64)
+	r := verifC19shared(nk, zzverif.Param("preset-symbolic-keys", 0, 1) == 0)
+	r.fill()
+	// optionally remove one key first: lookups of absent keys with preset fields
+	if zzverif.Bool("pre-delete") {
+		err := r.idx[0].Delete(Item{Address: r.keys[0][0]})
+		zzverif.Assert(err == nil, "Delete succeeds")
+		r.ref[0].del(r.keys[0][0])
+	}
+	x := zzverif.Choose("index", 2)
+	ix, ref := r.idx[x], r.ref[x]
+
+	items := make([]Item, 0, nk)
+	for _, k := range r.keys[x] {
+		it := Item{
+			Address:         k,
+			AccessTimestamp: zzverif.I64("preset-access"),
+			StoreTimestamp:  zzverif.I64("preset-store"),
+			BinID:           zzverif.U64("preset-bin"),
+			PinCounter:      zzverif.U64("preset-pin"),
+		}
+		// the value field: unset (nil), or set to an arbitrary (stale) value
+		hasData, data := zzverif.Bool("preset-has-data"), zzverif.BytesN("preset-data", 1)
+		if hasData {
+			it.Data = data
+		}
+		items = append(items, it)
+	}
+
+	okGet, allPresent := true, true
+	for i, k := range r.keys[x] {
+		out, err := ix.Get(items[i])
+		if j := ref.find(k); j >= 0 {
+			okGet = okGet && err == nil && verifC19eq(out.Data, ref.vals[j]) && verifC19eq(out.Address, k)
+		} else {
+			okGet = okGet && errors.Is(err, driver.ErrNotFound)
+			allPresent = false
+		}
+	}
+	zzverif.Assert(okGet, "Get with preset item fields: stored value / ErrNotFound for absent keys")
+
+	err := ix.Fill(items)
+	if allPresent {
+		f := err == nil
+		for i, k := range r.keys[x] {
+			j := ref.find(k)
+			f = f && j >= 0 && verifC19eq(items[i].Data, ref.vals[j]) && verifC19eq(items[i].Address, k)
+		}
+		zzverif.Assert(f, "Fill with preset item fields: stored values with key fields kept")
+	} else {
+		zzverif.Assert(errors.Is(err, driver.ErrNotFound), "Fill with preset item fields: ErrNotFound if a key is absent")
+	}
+	zzverif.Reach("C19-preset-items")
 }
